@@ -27,7 +27,7 @@ func init() {
 			"(d) end-to-end: real fractions with documents hours older than now, sealed, reloaded via index header and via .frac-cache, searched and fetched with such ranges vs the model. " +
 			"case = one configuration (a,b,c) or one request (d); non-trivial = some interval holds a document and some does not; distinct = (part, size/bucket/offset class | form, request kind)",
 		Assumptions: []string{"part (d) places the corpus relative to the wall clock (fraction creation time is read by seq-db); the base instant is part of the case description"},
-		Batches:     tiered(24, 128),
+		Batches:     tiered(240, 3840),
 		Run:         runC14,
 		Exhaustive:  func(string) bool { return false },
 		Timeout:     timeoutFor(8*time.Minute, 40*time.Minute),
